@@ -99,6 +99,22 @@ func (eng *Engine) load(patterns []string) error {
 		if fn.Pkg == nil && fn.Origin() == nil && fn.Synthetic == "" {
 			continue
 		}
+		// generic functions: prefer the string instantiation (the one gittuf uses) for verification by key
+		if old, ok := eng.funcByKey[calleeKey(fn)]; ok && old != fn {
+			if len(fn.TypeArgs()) == 0 && fn.Signature.TypeParams().Len() == 0 && fn.Origin() == nil {
+				// plain function: keep
+			} else {
+				isStr := len(fn.TypeArgs()) > 0
+				for _, ta := range fn.TypeArgs() {
+					if b, ok := ta.Underlying().(*types.Basic); !ok || b.Kind() != types.String {
+						isStr = false
+					}
+				}
+				if !isStr {
+					continue
+				}
+			}
+		}
 		eng.funcByKey[calleeKey(fn)] = fn
 		inInit := fn.Name() == "init" || strings.HasPrefix(fn.Name(), "init#")
 		for _, b := range fn.Blocks {
@@ -553,4 +569,18 @@ func (eng *Engine) pkgReaches(from, to string) bool {
 		return walk(p.Pkg)
 	}
 	return false
+}
+
+// fnPkg: the types package a function belongs to (instantiations of generics have no package of their own).
+func fnPkg(fn *ssa.Function) *types.Package {
+	if fn.Pkg != nil {
+		return fn.Pkg.Pkg
+	}
+	if o := fn.Origin(); o != nil && o.Pkg != nil {
+		return o.Pkg.Pkg
+	}
+	if p := fn.Parent(); p != nil {
+		return fnPkg(p)
+	}
+	return nil
 }
